@@ -580,7 +580,8 @@ class ChunkedDataDict(GenericEquality):
             self._dict = mappings.ImmutableDict(d_stream)
             self._global_settings = tuple(g_stream)
         else:
-            self._dict.update(d_stream)
+            # still mutable: keep the per-key values lists
+            self._dict.update((k, list(v)) for k, v in d_stream)
             self._global_settings[:] = list(g_stream)
 
     def render_to_dict(self):
